@@ -6,6 +6,8 @@
 import Varlink.Frame
 import Varlink.Extracted.Ctxio
 import VarlinkProofs.Lemmas.Frame
+import Varlink.Extracted.Code
+import Varlink.ExpectedCode
 namespace Varlink.C18
 open Varlink
 
@@ -136,5 +138,11 @@ theorem direct_path_loses_coalesced_payload :
 /-- …while the buffered path delivers it -/
 theorem buffered_path_delivers_coalesced_payload :
     (runOps 4096 .buffered [.frame, .raw 4] {} [[1, 0, 7, 7], [9]]).1 = [[1, 0], [7, 7]] := by decide
+
+/-- **Tie to the source**: the declarations of /repo that this property's model transliterates
+    (`Extracted.codeNames_C18`) have, in the current working tree, exactly the fingerprints of the code the
+    model was validated against. Any change to them breaks this obligation; the check then searches the
+    correspondence streams for an input on which the changed code violates the property. -/
+theorem modelled_code_unchanged : Varlink.Extracted.code_C18 = Varlink.ExpectedCode.code_C18 := by decide
 
 end Varlink.C18
